@@ -16,7 +16,7 @@ import re
 import mp_common as M
 
 LEVEL = "proof"
-EXTRA_PROPERTIES = ["C01mp", "C01jx"]     # MsgPack typed load/save round trip (mpscope family), JSON / XML adapter round trip (jx family)
+EXTRA_PROPERTIES = ["C01mp", "C01s", "C01jx"]     # MsgPack typed load/save round trip (mpscope family), JSON / XML adapter round trip (jx family)
 TRUSTED_BASE = [
     "Coq 8.16.1 kernel incl. vm_compute; theorems of coq/Properties_C01.v (assumptions printed per theorem in this evidence)",
     "the models are tied to /repo by the correspondences of their own families, run by the checks C06/C07 (MsgPack writer, reader, typed save), C09 (CSV), C13/C11 (encoded streams, UTF), C16 (number text), C08 (JSON/XML adapters); C01 does not repeat them",
